@@ -380,7 +380,7 @@ void check_current(vf::Ctx &c, StackWorld &w, const std::string &hist) {
   }
   nostd::shared_ptr<trace::Span> sp = trace::Tracer::GetCurrentSpan();
   if (want.null_span) {  // a Scope over a null span is on top: the statement says nothing about GetCurrentSpan() here (it must not crash)
-    c.counted(sp ? "dontcare_current_span_over_null_scope_nonnull" : "dontcare_current_span_over_null_scope_null");
+    c.counted(sp ? "dontcare_nullscope_span_nonnull" : "dontcare_nullscope_span_null");
     return;
   }
   c.check(bool(sp), "C10:getcurrentspan-null", "GetCurrentSpan() returned a null pointer");
